@@ -214,7 +214,7 @@ func (x *Exec) evalMake(st *State, e *ast.CallExpr) *Value {
 		}
 		// Go panics for negative or huge sizes; huge = beyond 2^47 elements
 		// (a conservative stand-in for "len out of range").
-		lim := x.b.Num(new(big.Int).Lsh(big.NewInt(1), 47), is)
+		lim := x.b.Num(new(big.Int).Lsh(big.NewInt(1), 48), is)
 		x.safety(st, "makesize", e, x.b.And(x.b.Le(zero, n, true), x.b.Le(n, c, true), x.b.Le(c, lim, true)))
 		v := x.zeroValue(t)
 		v.L["len"], v.L["cap"], v.L["off"], v.L["nil"] = n, c, zero, x.b.False()
@@ -403,7 +403,7 @@ func (x *Exec) funcIsPure(f *types.Func) bool {
 }
 
 func isLibPure(q string) bool {
-	for _, p := range []string{"strconv.", "strings.", "math.", "math/bits.", "fmt.Sprintf", "fmt.Sprint", "fmt.Errorf", "errors.", "bytes.", "unicode", "time.", "sort.", "encoding/binary.", "github.com/jimsnab/go-lane.", "math/rand.", "sync/atomic.Load"} {
+	for _, p := range []string{"strconv.", "strings.", "math.", "math/bits.", "fmt.Sprintf", "fmt.Sprint", "fmt.Errorf", "errors.", "bytes.", "unicode", "time.", "sort.", "encoding/binary.", "github.com/jimsnab/go-lane.", "math/rand.", "sync/atomic.Load", "math/big.", "reflect."} {
 		if strings.HasPrefix(q, p) {
 			return true
 		}
@@ -411,7 +411,29 @@ func isLibPure(q string) bool {
 	return false
 }
 
+func (x *Exec) isLocalVar(id *ast.Ident) bool {
+	obj, ok := x.eng.info.Uses[id].(*types.Var)
+	if !ok {
+		return false
+	}
+	if _, taken := x.addrTaken[obj]; taken {
+		return false
+	}
+	return obj.Parent() != x.eng.pkg.Types.Scope()
+}
+
 func (x *Exec) callStatic(st *State, e *ast.CallExpr, callee *types.Func, recvE ast.Expr) []*Value {
+	outs := x.callStatic1(st, e, callee, recvE)
+	return outs
+}
+
+func (x *Exec) callStatic1(st *State, e *ast.CallExpr, callee *types.Func, recvE ast.Expr) (outs []*Value) {
+	var copyBack func()
+	defer func() {
+		if copyBack != nil && x.failed == nil {
+			copyBack()
+		}
+	}()
 	q := funcQual(callee)
 	sig := callee.Type().(*types.Signature)
 	// evaluate receiver and arguments
@@ -424,8 +446,41 @@ func (x *Exec) callStatic(st *State, e *ast.CallExpr, callee *types.Func, recvE 
 			_, wantPtr := rt.Underlying().(*types.Pointer)
 			_, havePtr := recv.T.Underlying().(*types.Pointer)
 			if wantPtr && !havePtr {
-				// method with pointer receiver called on addressable value
-				recv = x.addrOfValue(st, recvE, recv)
+				// method with pointer receiver called on addressable value:
+				// copy-in / copy-out through a fresh cell (promoted methods walk
+				// the embedded field path first)
+				var path []string
+				cur := recv
+				if fsel, ok := unparen(e.Fun).(*ast.SelectorExpr); ok {
+					if sel := x.eng.info.Selections[fsel]; sel != nil && len(sel.Index()) > 1 {
+						for _, ix := range sel.Index()[:len(sel.Index())-1] {
+							stt, ok := cur.T.Underlying().(*types.Struct)
+							if !ok {
+								break
+							}
+							f := stt.Field(ix)
+							path = append(path, f.Name())
+							cur = cur.sub(f.Name(), f.Type())
+						}
+					}
+				}
+				if id, ok := unparen(recvE).(*ast.Ident); ok && kindOf(cur.T) == kStruct && x.isLocalVar(id) {
+					r := x.allocRef(st)
+					x.storeStruct(st, r, cur.T, cur)
+					ct := cur.T
+					whole := recv
+					copyBack = func() {
+						nv := x.loadStruct(st, r, ct)
+						if len(path) == 0 {
+							x.assignTo(st, recvE, nv)
+						} else {
+							x.assignTo(st, recvE, whole.with(strings.Join(path, "."), nv))
+						}
+					}
+					recv = scalarV(types.NewPointer(ct), r)
+				} else {
+					recv = x.addrOfValue(st, recvE, cur)
+				}
 			} else if !wantPtr && havePtr {
 				x.checkNonNil(st, recvE, recv.scalar())
 				pt := recv.T.Underlying().(*types.Pointer)
@@ -787,6 +842,9 @@ func (x *Exec) applyContract(st *State, c *Contract, callee *types.Func, recv *V
 	}
 	// 1. preconditions
 	for _, r := range c.Requires {
+		if clauseUsesFresh(c, r) {
+			continue // per-case assumption of the callee's own proof (covered by case.cover)
+		}
 		x.skolem = true
 		g := x.evalClauseIn(st, r, specPos, q)
 		x.skolem = false
@@ -812,6 +870,16 @@ func (x *Exec) applyContract(st *State, c *Contract, callee *types.Func, recv *V
 	// 5. assume postconditions
 	x.oldStack = append(x.oldStack, pre)
 	for _, en := range c.Ensures {
+		if en.quantified() {
+			// quantified callee facts are assumed only on request ("use callee.clause")
+			cc := x.eng.cf.Contracts[x.frame().qual]
+			if cc == nil {
+				cc = x.contract
+			}
+			if cc == nil || !cc.usesClause(q, en.Name) {
+				continue
+			}
+		}
 		g := x.evalClauseIn(st, en, specPos, q)
 		x.assume(st, g)
 	}
@@ -859,7 +927,12 @@ func (x *Exec) havocModifies(st *State, mods []string) {
 			st.globals[k] = x.freshValue(g.T, "g."+k)
 		}
 	}
-	x.pendingHavoc = append(x.pendingHavoc, mods...)
+	fi := &frameInfo{heapKeys: map[string]bool{}}
+	for _, m := range mods {
+		fi.heapKeys[strings.TrimSuffix(m, ".*")] = true
+	}
+	x.havocId++
+	st.pending = append(st.pending, &pendingHavoc{x.havocId, fi})
 	if contains(mods, "alloc") {
 		na := x.b.Fresh("alloc", IntSort)
 		x.assume(st, x.b.Le(st.alloc, na, true))
